@@ -804,6 +804,15 @@ class CallMixin:
                 d.items[("c", k)] = v
             return d
         if name in ("set", "frozenset"):
+            if a:
+                src = self.resolve_alt(a[0])
+                if isinstance(src, Sym) and src.op == "set":
+                    return Sym("set", tuple(src.args[0]))
+                if isinstance(src, PyDict) and not src.opaque_keys:
+                    from .interp_expr import key_to_val
+                    return Sym("set", tuple(key_to_val(k) for k in src.items))
+                if isinstance(src, Const) and isinstance(src.v, (frozenset, set, tuple, list)):
+                    return Sym("set", tuple(Const(x) for x in (sorted(src.v, key=repr) if isinstance(src.v, (set, frozenset)) else src.v)))
             return Sym("set", tuple(self.concrete_items(a[0]) or [Sym("elemof", a[0])]) if a else ())
         if name == "getattr" and len(a) >= 2:
             return self.builtin_getattr(a, module, node)
@@ -1025,6 +1034,13 @@ class CallMixin:
                     elem = per[0] if len(per) == 1 else AltV(per)
                     parts.append(("join", sep, elem, over))
                 return Str(parts)
+            if isinstance(seq, AbsList) and getattr(seq, "_split_of", None) is not None and seq.minlen == 1 and seq.order == ["?"] \
+                    and isinstance(sep, Const) and isinstance(sep.v, str):
+                # new.join(text.split(old))  ==  text.replace(old, new)   (old is a non-empty constant)
+                sbase, ssep = seq._split_of
+                if isinstance(ssep, str) and ssep and repr(seq.elem) == repr(Sym("splitpart", sbase, ssep, hint="str")):
+                    s2 = Str(to_str_parts(sbase, (("replace", ssep, sep.v),)))
+                    return Const(s2.const()) if s2.is_const() else s2
             if isinstance(seq, (MapV, ListV, AbsList)):
                 return Str([("join", sep, seq.elem, seq.over if isinstance(seq, MapV) else seq)])
             return Str([("join", sep, Sym("elemof", seq), seq)])
@@ -1038,7 +1054,13 @@ class CallMixin:
             return Const(s.const()) if s.is_const() else s
         if name == "split":
             sep = a[0].v if a and isinstance(a[0], Const) else None
-            return AbsList(Sym("splitpart", base, sep, hint="str"), 1)
+            res = AbsList(Sym("splitpart", base, sep, hint="str"), 1)
+            if len(a) == 1 and not kwargs:
+                res._split_of = (base, sep)  # type: ignore[attr-defined]
+            return res
+        if name in ("rpartition", "partition") and len(a) == 1 and isinstance(a[0], Const) and isinstance(a[0].v, str) and a[0].v:
+            # (head, sep-or-empty, tail): always three strings
+            return PyTuple([Sym(name, base, a[0].v, i, hint="str") for i in range(3)])
         if name in ("startswith", "endswith", "isdigit", "isupper", "islower", "isalpha", "isalnum", "isidentifier"):
             return Const(self.unknown_bool(f"{_describe(base)}.{name}({','.join(_describe(x) for x in a)})"))
         if name == "format":
